@@ -47,7 +47,7 @@ VisibleVals ==
     [i \in 1..Len(V) |->
         LET f == RootField(V[i].n) IN
         IF f.k = "Int" /\ f.desc.kind # "none"
-        THEN LET r == DescRead(f, V, ex) IN [n |-> V[i].n, v |-> IF r.ok THEN r.v ELSE [t |-> "other"]]
+        THEN LET r == DescRead(dp, f, V, ex) IN [n |-> V[i].n, v |-> IF r.ok THEN r.v ELSE [t |-> "other"]]
         ELSE V[i]]
 
 StepPack1  == /\ phase = "pack" /\ RunningP(p) /\ p' = StepP(dp, p)
@@ -72,7 +72,13 @@ Terminal == \/ (phase = "pack" /\ p.st = "fail")
             \/ (phase = "pack2" /\ ~RunningP(p2))
 
 Consistent == ConsistentPkt(dd.prog, dd.root, V)
-Plain == NoPositioning(dd.prog) /\ DescNames(dd.prog, dd.root) = {}
+\* a plain reference whose prototype leaves a described field of the referenced class unassigned: the nested packet
+\* serialises what the descriptor COMPUTES, which the constructed value tree V does not hold
+NestedComputed(prog) ==
+    \E c \in DOMAIN prog : \E i \in 1..Len(prog[c].fields) :
+        LET f == prog[c].fields[i] IN
+        f.k = "Ref" /\ DescNames(prog, f.cls) \ {f.over[k].n : k \in 1..Len(f.over)} # {}
+Plain == NoPositioning(dd.prog) /\ DescNames(dd.prog, dd.root) = {} /\ ~NestedComputed(dd.prog)
 
 \* C02: a consistent assignment packs, re-parses to the same values, consuming everything
 Inv_C02_Reparse ==
